@@ -17,7 +17,8 @@ HARNESS = 'vpx.harness.c09'
 FUNCTIONS = ['bfg9000.environment.EnvVarDict.__init__', '__setitem__', '__delitem__', 'pop',
              'popitem', 'setdefault', 'update', 'clear', 'reset', 'changes', 'to_json', 'from_json',
              'bfg9000.environment.Toolchain.to_json/from_json', 'BasePath.to_json/from_json',
-             'bfg9000.environment.Environment.load (version gate)']
+             'bfg9000.environment.Environment.load (version gate)', 'Environment.reload',
+             'bfg9000.build.load_toolchain']
 OUTSIDE = ['histories longer than the bound', 'symbolic variable *names*', 'upgrade chain of old '
            'snapshot versions', 'Environment.save/load of the complete object (tool detection, '
            'platform objects)', 'ambient environment of later invocations']
@@ -53,6 +54,13 @@ def obligations(tier, kf):
     obs.append(Ob('h_history', {'NO': 2, 'VL': 1, 'O0': 2, 'INIT': 2}, 600).mutant('envvar_pop_unrecorded'))
     obs.append(Ob('h_history', {'NO': 2, 'VL': 1, 'O0': 0, 'INIT': 1}, 600).mutant('envvar_reset_keeps_changes'))
     obs.append(Ob('h_history', {'NO': 2, 'VL': 1, 'O0': 1, 'INIT': 2}, 600).mutant('envvar_lazy_changes_no_removed'))
+    for init in (1, 2):
+        tr = Ob('t_toolchain_replay', {'NO': 1 if q else 2, 'VL': 1, 'INIT': init}, 1500,
+                desc='toolchain replay after a history of <= %d changes, initial map #%d' % (
+                    1 if q else 2, init))
+        obs.append(tr)
+    obs.append(Ob('t_toolchain_replay', {'NO': 1, 'VL': 1, 'INIT': 1}, 120).twin())
+    obs.append(Ob('t_toolchain_replay', {'NO': 1, 'VL': 1, 'INIT': 1}, 300).mutant('toolchain_lazy_no_reload'))
     for n in range(0, (2 if q else 3) + 1):
         obs.append(Ob('j_path_json', {'N': n}, 1500, desc='path snapshot, |s| <= %d' % n))
     obs.append(Ob('j_path_json', {'N': 1}, 120).twin())
